@@ -410,10 +410,10 @@ func (ir *ifdReader) ParseOffsetTime(t Tag) *time.Location {
 			offset += int(parseStrUint(buf[4:6])) * minutesToSeconds
 			switch buf[0] {
 			case '-':
-				return getLocation(int32(offset*-1), buf[:6])
+				return getLocation(int32(offset * -1))
 				//return time.FixedZone(string(buf[:6]), offset*-1)
 			case '+':
-				return getLocation(int32(offset), buf[:6])
+				return getLocation(int32(offset))
 				//return time.FixedZone(string(buf[:6]), offset)
 			default:
 				if ir.logLevelWarn() {
